@@ -154,7 +154,7 @@ fn snapshot_equals_model(dir: &Path, snap: &Path, model: &Model) -> Result<(), S
     }
 }
 
-fn one_threshold(a: &Args, shape: u32, seed: u64, t: u64, kind: u32, ctx: &mut Ctx) -> Result<bool, String> {
+fn one_threshold(a: &Args, shape: u32, seed: u64, t: u64, kind: u32, between: u32, retry_flush: bool, ctx: &mut Ctx) -> Result<bool, String> {
     let dir = a.scratch.join("c16");
     let snap = a.scratch.join("c16snap");
     let mut b = build(&dir, shape, seed).map_err(|e| format!("HARNESS build: {e}"))?;
@@ -199,7 +199,7 @@ fn one_threshold(a: &Args, shape: u32, seed: u64, t: u64, kind: u32, ctx: &mut C
     let _ = hooks::take_io_events();
     ctx.count("reads_under_fault.ok", reads_ok);
     ctx.count("reads_under_fault.err", reads_err);
-    let ctxs = format!("[shape {shape}, limit {t} bytes, {kind_name}]");
+    let ctxs = format!("[shape {shape}, limit {t} bytes, {kind_name}, then {}{}]", ["", "a delete and ", "an overwrite and "][between as usize % 3], if retry_flush { "flush" } else { "sync_data" });
     if let Some(w) = wrong {
         hooks::record_io_events(false);
         return Err(format!("{ctxs} {w}"));
@@ -262,9 +262,40 @@ fn one_threshold(a: &Args, shape: u32, seed: u64, t: u64, kind: u32, ctx: &mut C
             return Err(format!("{ctxs} after the limit is lifted len() is {:?}, model {}", match other { Guard::Ok(x) => format!("{x:?}"), _ => "panic".into() }, b.model.len()));
         }
     }
-    // the recovering flush, with nothing in between: it alone must make every update durable
+    // the recovering flush must make every update durable: with nothing in between (it alone), or after one more
+    // update made between the failed attempt and the retry (a delete, or an overwrite that relocates)
+    if between > 0 && !call_ok {
+        let victim = b.keys.iter().find(|k| b.model.contains_key(*k)).cloned();
+        if let Some(k) = victim {
+            let rr = guarded(crate::session::STEP_BUDGET_BASE, || -> std::io::Result<()> {
+                if between == 1 {
+                    b.map.delete(&k[..]).map(|_| ())
+                } else {
+                    b.map.put(&k[..], &crate::util::gen_bytes(2222, 5, 0))
+                }
+            });
+            match rr {
+                Guard::Ok(Ok(())) => {
+                    if between == 1 {
+                        b.model.remove(&k);
+                    } else {
+                        b.model.insert(k.clone(), crate::util::gen_bytes(2222, 5, 0));
+                    }
+                    ctx.count(if between == 1 { "update_between_failure_and_retry.delete" } else { "update_between_failure_and_retry.put" }, 1);
+                }
+                Guard::Ok(Err(e)) => {
+                    hooks::record_io_events(false);
+                    return Err(format!("{ctxs} an update after the limit was lifted returns Err({e})"));
+                }
+                Guard::Hang(m) | Guard::Panic(m) => {
+                    hooks::record_io_events(false);
+                    return Err(format!("FOREIGN {ctxs} an update after the limit was lifted panicked: {m}"));
+                }
+            }
+        }
+    }
     let _ = hooks::take_io_events();
-    let r1 = guarded(crate::session::STEP_BUDGET_BASE, || if kind % 2 == 0 { b.map.flush() } else { b.map.sync_data() });
+    let r1 = guarded(crate::session::STEP_BUDGET_BASE, || if retry_flush { b.map.flush() } else { b.map.sync_data() });
     let _ = hooks::take_io_events();
     match r1 {
         Guard::Ok(Ok(())) => {}
@@ -328,20 +359,25 @@ pub fn run(a: &Args) -> Ctx {
             }
         };
         ctx.count(&format!("thresholds_enumerated.shape{shape}"), ts.len() as u64);
+        // every threshold x every kind of call x what happens between the failed attempt and the retry x kind of retry
         for (i, &t) in ts.iter().enumerate() {
+          for kind in 0..5u32 {
+            for between in 0..3u32 {
+              for retry_flush in [true, false] {
             job += 1;
             if job % a.nshards != a.shard {
                 continue;
             }
             ctx.evaluations += 1;
             ctx.digests.insert(((shape as u64) << 48) | t);
-            let r = one_threshold(a, shape, seed, t, (i as u32) + shape, &mut ctx);
+            let r = one_threshold(a, shape, seed, t, kind, between, retry_flush, &mut ctx);
             crate::sys::set_fsize_soft(crate::sys::RLIM_INFINITY);
-            if ctx.samples.len() < 3 {
+            if ctx.samples.len() < 3 && (job / a.nshards) % 97 == 1 {
                 let mut s = J::obj();
                 s.set("shape", J::s(["big values: .val largest", "long keys: .key largest", "big table: .htx largest"][shape as usize]));
                 s.set("limit_bytes", J::u(t));
-                s.set("call", J::s(["flush", "sync_all", "sync_data", "db_sync_all", "db_sync_data"][((i as u32 + shape) % 5) as usize]));
+                s.set("call", J::s(["flush", "sync_all", "sync_data", "db_sync_all", "db_sync_data"][kind as usize]));
+                s.set("between_failure_and_retry", J::s(["nothing", "a delete", "an overwrite"][between as usize]));
                 s.set("outcome", J::s(match &r { Ok(rf) => format!("held (write refusal observed: {rf})"), Err(m) => m.clone() }));
                 ctx.samples.push(s);
             }
@@ -367,6 +403,9 @@ pub fn run(a: &Args) -> Ctx {
                     }
                 }
             }
+              }
+            }
+          }
         }
     }
     ctx
